@@ -87,9 +87,19 @@ def is_scope_expr(ctx: Ctx, e: ast.AST, ld: LocalDefs | None = None, _depth: int
     return False
 
 
-def returns_scope_callable(ctx: Ctx, k: ast.AST, ld: LocalDefs | None) -> bool | None:
+def returns_scope_callable(ctx: Ctx, k: ast.AST, ld: LocalDefs | None, module=None) -> bool | None:
     """Does the key function *k* return a Scope?  None = cannot tell."""
     meths, _ = scope_members(ctx)
+    if isinstance(k, ast.Name) and module is not None:
+        g = ctx.repo.get_function(module, k)
+        if g is None:
+            return None
+        if g.node.returns is not None:
+            return _ann_is_scope(g.node.returns)
+        rets = [r for r in walk_no_nested(g.node) if isinstance(r, ast.Return) and r.value is not None]
+        if rets and all(is_scope_expr(ctx, r.value, LocalDefs(g.node)) for r in rets):
+            return True
+        return None
     if isinstance(k, ast.Attribute):
         return k.attr in meths
     if isinstance(k, ast.Lambda):
@@ -291,7 +301,7 @@ def r7a(ctx: Ctx, funcs: list[str], require: int = 0) -> list[Ob]:
             elems_scope: bool | None = None
             how = ""
             if "key" in kws:
-                r = returns_scope_callable(ctx, kws["key"], ld)
+                r = returns_scope_callable(ctx, kws["key"], ld, f.module)
                 if r is True:
                     elems_scope, how = True, f"key={unparse(kws['key'])} returns a Scope"
                 elif r is False:
@@ -329,7 +339,7 @@ def r7a(ctx: Ctx, funcs: list[str], require: int = 0) -> list[Ob]:
             else:
                 out.append(unres("R7a", fq, inst, "Scope.__lt__ is not recognisably the subset order: no verdict", l))
     if n_sites < require:
-        raise AnalysisError(f"vanished anchor: fewer than {require} ordering sites found in {funcs}")
+        out.append(unres("R7a", funcs[0], "ordering-sites", f"fewer than {require} comparison-based ordering site(s) recognised in {funcs}: canonical form not derived, no verdict"))
     return out
 
 
